@@ -187,6 +187,10 @@ type Outcome struct {
 	TooLongLine int
 	Stopped     bool // Read stopped at TooLongLine
 	Stats       Stats
+	// BareUnitLines are the 1-based numbers of the lines "Unit <unit>" without
+	// any key=value field. They set nothing and prescribe no record; whether a
+	// reader complains about them is left open (see C02 NOTES).
+	BareUnitLines []int
 }
 
 // IsSep reports whether r separates fields.
@@ -443,6 +447,9 @@ func (m *Model) unitLine(fileName, line string, lineNo int, out *Outcome) {
 	unit := f[1]
 	m.note(unit)
 	tidy, _, _ := TidyUnit(unit)
+	if len(f) == 2 {
+		out.BareUnitLines = append(out.BareUnitLines, lineNo)
+	}
 	for _, kv := range f[2:] {
 		eq := strings.IndexByte(kv, '=')
 		if eq <= 0 {
